@@ -199,6 +199,8 @@ func (c *Cluster) Exec(a Action) bool {
 		return c.StartNode(a.Node, nil) == nil
 	case "api":
 		return c.API(a)
+	case "stress":
+		c.Stress(a)
 	case "mark":
 		// T0 of C16: nothing happens; the action event itself carries leader and majority
 	case "armsnap":
